@@ -72,7 +72,14 @@ Theorem C01_two_nodes : forall cA iA ppA iA1 oA1 iA2 oA2 cB iB iB1 oB1 iB2 oB2 i
              else (if worse_than ddB ddA then DS1 else DM2) in
   state_of (snapshot_of iB3) 0 = decided_state dec prev (dd_slave_only ddB) false /\
   (dec = DS1 -> ds_steps_removed (i_ds iB3) = 1 /\ pd_parent (ds_parent (i_ds iB3)) = p_identity ppA /\
-                pd_gm_identity (ds_parent (i_ds iB3)) = dd_clock_identity ddA).
+                pd_gm_identity (ds_parent (i_ds iB3)) = dd_clock_identity ddA) /\
+  (* otherwise: a master decision installs the own clock as grandmaster, a passive one leaves the data sets alone *)
+  (dec <> DS1 ->
+     if is_m dec
+     then ds_steps_removed (i_ds iB3) = 0 /\ pd_parent (ds_parent (i_ds iB3)) = mkPI (dd_clock_identity ddB) 0 /\
+          pd_gm_identity (ds_parent (i_ds iB3)) = dd_clock_identity ddB
+     else ds_steps_removed (i_ds iB3) = ds_steps_removed (i_ds iB2) /\ pd_parent (ds_parent (i_ds iB3)) = pd_parent (ds_parent (i_ds iB2)) /\
+          pd_gm_identity (ds_parent (i_ds iB3)) = pd_gm_identity (ds_parent (i_ds iB2))).
 Proof. exact two_nodes. Qed.
 
 (** Two clocks that are their own grandmasters and have different identities never
@@ -113,10 +120,45 @@ Theorem C01_two_clock_network : forall sA sB iA0 oA0 iB0 oB0,
     run_state iB0 [EvAnnounceReceiptTimer 0; EvAnnounceTimer 0 []; EvAnnounceTimer 0 []] = Some iB3 /\
     run_state iA3 [EvRecvGeneral 0 fB1; EvRecvGeneral 0 fB2; EvBmca] = Some iA6 /\
     run_state iB3 [EvRecvGeneral 0 fA1; EvRecvGeneral 0 fA2; EvBmca] = Some iB6 /\
-    let wA := worse_than (ds_default (i_ds iA0)) (ds_default (i_ds iB0)) in
-    state_of (snapshot_of iA6) 0 = (if wA then demoted_state (ds_default (i_ds iA0)) else 6) /\
-    state_of (snapshot_of iB6) 0 = (if wA then 6 else demoted_state (ds_default (i_ds iB0))).
+    let ddA := ds_default (i_ds iA0) in
+    let ddB := ds_default (i_ds iB0) in
+    let wA := worse_than ddA ddB in
+    state_of (snapshot_of iA6) 0 = (if wA then demoted_state ddA else 6) /\
+    state_of (snapshot_of iB6) 0 = (if wA then 6 else demoted_state ddB) /\
+    (* the data sets: the loser follows the winner unless its clockClass is in 1..127,
+       in which case it is PASSIVE and remains its own grandmaster (finding F28) *)
+    let a_follows := wA && negb (low_dd ddA) in
+    let b_follows := negb wA && negb (low_dd ddB) in
+    pd_gm_identity (ds_parent (i_ds iA6)) = (if a_follows then dd_clock_identity ddB else dd_clock_identity ddA) /\
+    pd_gm_identity (ds_parent (i_ds iB6)) = (if b_follows then dd_clock_identity ddA else dd_clock_identity ddB) /\
+    ds_steps_removed (i_ds iA6) = (if a_follows then 1 else 0) /\
+    ds_steps_removed (i_ds iB6) = (if b_follows then 1 else 0).
 Proof. exact two_clock_network. Qed.
+
+(** One grandmaster for every two-clock network - unless the loser of the comparison
+    has a clockClass in 1..127: then, for every such pair of configurations, both
+    clocks end as their own grandmaster (known finding F28, here as a theorem). *)
+Theorem C01_two_clock_grandmasters : forall sA sB iA0 oA0 iB0 oB0,
+  single_plain sA -> single_plain sB ->
+  ic_domain (su_config sA) = ic_domain (su_config sB) -> ic_sdo_id (su_config sA) = ic_sdo_id (su_config sB) ->
+  ic_clock_identity (su_config sA) <> ic_clock_identity (su_config sB) ->
+  init sA = Ok (iA0, oA0) -> init sB = Ok (iB0, oB0) ->
+  exists fA1 fA2 fB1 fB2 iA3 iB3 iA6 iB6,
+    run_state iA0 [EvAnnounceReceiptTimer 0; EvAnnounceTimer 0 []; EvAnnounceTimer 0 []] = Some iA3 /\
+    run_state iB0 [EvAnnounceReceiptTimer 0; EvAnnounceTimer 0 []; EvAnnounceTimer 0 []] = Some iB3 /\
+    run_state iA3 [EvRecvGeneral 0 fB1; EvRecvGeneral 0 fB2; EvBmca] = Some iA6 /\
+    run_state iB3 [EvRecvGeneral 0 fA1; EvRecvGeneral 0 fA2; EvBmca] = Some iB6 /\
+    let ddA := ds_default (i_ds iA0) in
+    let ddB := ds_default (i_ds iB0) in
+    let wA := worse_than ddA ddB in
+    let winner := if wA then dd_clock_identity ddB else dd_clock_identity ddA in
+    let loser_low := if wA then low_dd ddA else low_dd ddB in
+    if loser_low
+    then pd_gm_identity (ds_parent (i_ds iA6)) = dd_clock_identity ddA /\ pd_gm_identity (ds_parent (i_ds iB6)) = dd_clock_identity ddB /\
+         ds_steps_removed (i_ds iA6) = 0 /\ ds_steps_removed (i_ds iB6) = 0
+    else pd_gm_identity (ds_parent (i_ds iA6)) = winner /\ pd_gm_identity (ds_parent (i_ds iB6)) = winner /\
+         ds_steps_removed (i_ds iA6) = (if wA then 1 else 0) /\ ds_steps_removed (i_ds iB6) = (if wA then 0 else 1).
+Proof. exact two_clock_grandmasters. Qed.
 
 (** The premises are satisfiable: clock 5 (priority1 100) announces twice, clock 9
     (priority1 128, clockClass 248) hears the two frames and runs the BMCA: its port
@@ -132,3 +174,26 @@ Example C01_two_nodes_nonvacuous :
   | _, _ => False
   end.
 Proof. exact two_nodes_example. Qed.
+
+(** Known finding F28: what the classifier of the check can excuse, and the finding
+    itself on the model (three instances in a line, the middle one of clockClass 6
+    and not the best: it goes PASSIVE, stays its own grandmaster, and the instance
+    behind it follows it). *)
+From SV Require Import Inst.F28Lemmas Inst.F28Example.
+Theorem C01_known_finding_guard : forall n,
+  kf_C01 n <> 0 ->
+  existsb node_panicked (nc_nodes n) = false /\ f28_present n = true /\ converged_f28 n = true /\ stable n 6 = true.
+Proof. exact kf_C01_guarded. Qed.
+
+Theorem C01_known_finding_needs_low_class : forall n, (forall i, low_class n i = false) -> kf_C01 n = 0.
+Proof. exact kf_C01_needs_low_class. Qed.
+
+Example C01_F28_line_of_three_in_model :
+  match f28M_after, f28C_after with
+  | Some iM, Some iC =>
+      sn_states (snapshot_of iM) = [7; 6] /\ pd_gm_identity (ds_parent (i_ds iM)) = 9 /\ ds_steps_removed (i_ds iM) = 0 /\
+      sn_states (snapshot_of iC) = [9] /\ pd_parent (ds_parent (i_ds iC)) = mkPI 9 2 /\
+      pd_gm_identity (ds_parent (i_ds iC)) = 9 /\ ds_steps_removed (i_ds iC) = 1
+  | _, _ => False
+  end.
+Proof. exact f28_line_of_three. Qed.
